@@ -5,6 +5,7 @@ import (
 	"encoding/json"
 	"fmt"
 	"io"
+	"math"
 	"time"
 
 	dbmodels "github.com/influxdata/influxdb/models"
@@ -77,6 +78,8 @@ func readPointsFromIO(data io.ReadCloser, points chan<- edge.PointMessage, preci
 	now := time.Time{}
 
 	in := bufio.NewScanner(data)
+	// A point is as long as its fields are, do not limit the length of a line.
+	in.Buffer(make([]byte, 0, bufio.MaxScanTokenSize), math.MaxInt32)
 	for in.Scan() {
 		db := in.Text()
 		if !in.Scan() {
